@@ -5,10 +5,72 @@ namespace hz {
 
 static const uint64_t kBlocksPerByte = 3000;
 
+// Size-class leg: values whose length sits exactly on a format threshold (MsgPack fix/8/16/32 headers) - memory save vs
+// stream save byte for byte, memory load vs stream load.
+static Outcome SizeClassLeg(RunCtx& ctx, int archive)
+{
+	Source& s = ctx.src;
+	ArchiveOps& ops = GetOps(archive);
+	const std::string an = ArchiveName(archive);
+	SerializationOptions o;
+	o.streamOptions.writeBom = false;
+	static const uint32_t small[] = { 15, 16, 31, 32, 255, 256 };
+	static const uint32_t big[] = { 65534, 65535, 65536 };
+	const uint32_t len = s.chance(sim::L_DOC, 1, 3) ? s.pick(sim::L_DOC, big) : s.pick(sim::L_DOC, small);
+	const uint32_t shape = s.draw(sim::L_DOC, 4);     // 0 string value, 1 byte container, 2 array, 3 object key
+	DynNode root(K::Arr);
+	if (shape == 0) { DynNode v(K::Str); v.s.assign(len, 's'); root.items.push_back(v); }
+	else if (shape == 1) { DynNode v(K::Bin); v.bin.assign(std::min<uint32_t>(len, archive == A_MSGPACK ? len : 300), 7); root.items.push_back(v); }
+	else if (shape == 2) { DynNode v(K::Arr); const uint32_t n = archive == A_MSGPACK ? len : std::min<uint32_t>(len, 300); for (uint32_t i = 0; i < n; ++i) v.items.emplace_back(K::Bool); root.items.push_back(v); }
+	else { DynNode v(K::Obj); Key k; k.s.assign(std::min<uint32_t>(len, archive == A_XML ? 200 : len), 'k'); v.keys.push_back(k); v.items.emplace_back(K::I32); root.items.push_back(v); }
+	DynNode tail(K::I32);
+	tail.i32 = 12345;
+	root.items.push_back(tail);
+	if (archive == A_CSV) return Outcome();
+	Outcome out;
+	out.cfgKey = an + "|sizeclass|" + std::to_string(shape) + "|" + std::to_string(len);
+	ctx.note("size-class leg: archive=" + an + " shape=" + std::to_string(shape) + " length=" + std::to_string(len));
+	ctx.count("leg.sizeclass");
+	std::string mem;
+	CallResult sm = SaveDynWith(ops, root, mem, o, OutCfg{});
+	if (!sm.ok) return out;
+	static const uint32_t bufs[] = { 0, 7, 4096 };
+	OutCfg oc;
+	oc.stream = true;
+	oc.bufSize = s.pick(sim::L_IO, bufs);
+	std::string str;
+	CallResult ss = SaveDynWith(ops, root, str, o, oc);
+	if (!ss.ok || str != mem)
+	{
+		size_t i = 0;
+		while (i < mem.size() && i < str.size() && mem[i] == str[i]) ++i;
+		return Violation("DIVERGENCE", "archive=" + an + " dir=save what=bytes", "stream save (" + ss.cat + ", " + std::to_string(str.size()) + " bytes) differs from memory save (" + std::to_string(mem.size())
+			+ " bytes) at offset " + std::to_string(i) + " for a value of length " + std::to_string(len) + ": memory=" + sim::hex(mem.substr(i, 8)) + " stream=" + sim::hex(str.substr(i, 8)));
+	}
+	DynNode skelM = Skeleton(root);
+	sim::steps_begin(3000ull * (mem.size() + 4096));
+	const CallResult rM = LoadDynWith(ops, skelM, mem, o, InCfg{});
+	sim::steps_end();
+	InCfg c = DrawStreamCfg(s, sim::L_IO);
+	DynNode skelS = Skeleton(root);
+	sim::steps_begin(3000ull * (mem.size() + 4096));
+	sim::stream_call_budget(64 * (mem.size() + 4096) * 8);
+	LoadInfo info;
+	const CallResult rS = LoadDynWith(ops, skelS, mem, o, c, {}, false, &info);
+	sim::steps_end();
+	out.nontrivial = true;
+	if (!c.seekable && info.seekFailed && !rS.ok) return out;
+	if (rM.ok != rS.ok || (rM.ok && TraceRepr(skelM) != TraceRepr(skelS)) || (!rM.ok && rM.cat != rS.cat))
+		return Violation("DIVERGENCE", "archive=" + an + " dir=load what=" + (rM.ok && rS.ok ? "value" : "outcome") + " entry=" + (c.seekable ? "stream:file" : "stream:pipe"), "size-class document (length " + std::to_string(len) + "): memory=" + rM.cat + " stream=" + rS.cat + " " + rS.what);
+	if (rM.ok && Repr(skelM) != Repr(root)) return Violation("DIVERGENCE", "archive=" + an + " dir=load what=value entry=mem", "size-class document does not load back: " + DiffAt(Repr(root).substr(0, 400), Repr(skelM).substr(0, 400)));
+	return out;
+}
+
 Outcome RunC10(RunCtx& ctx)
 {
 	Source& s = ctx.src;
 	const int archive = static_cast<int>(s.draw(sim::L_CFG, A_COUNT));
+	if (s.chance(sim::L_CFG, 1, 64)) return SizeClassLeg(ctx, archive);
 	ArchiveOps& ops = GetOps(archive);
 	GenCfg g;
 	g.archive = archive;
